@@ -19,7 +19,7 @@ func init() {
 	Register(&Spec{
 		ID:        "C05",
 		Technique: "runtime monitoring: two-run abstraction-soundness monitor — one evaluation with some variables unknown (typed, refined, dynamic, nested) against many concrete evaluations whose values satisfy the same refinements",
-		Rule: "each case is a generated expression over a concrete scope; a non-empty subset of the variables it uses is replaced by abstractions of their values (typed unknown; unknown refined with not-null / a true string prefix / numeric bounds / length bounds that the concrete value satisfies; cty.DynamicVal; an unknown nested inside an otherwise known collection); the abstract result is compared with the results of 1+7 concrete instantiations (the original values, random values and extremes admitted by the same refinements) by the consistency relation of the property; every concrete run is also checked to contain no unknown; " +
+		Rule: "each case is a generated expression over a concrete scope; a non-empty subset of the variables it uses is replaced by abstractions of their values (typed unknown; unknown refined with not-null / a true string prefix / numeric bounds / length bounds that the concrete value satisfies; cty.DynamicVal; an unknown nested inside an otherwise known collection); the abstract result is compared with the results of 1+7 concrete instantiations (the original values, random values and extremes admitted by the same refinements) by the consistency relation of the property; every concrete run is also checked to contain no unknown; directed programs abstract one element of a known collection at each position of template for directives, joins and interpolations; " +
 			"non-trivial = the abstract run was error-free, not wholly known, and at least two concrete runs were error-free; distinct by program + abstraction hash",
 		Assumptions: []string{"cty's own operations on unknown values (arithmetic, comparison, conversion, refinement bookkeeping) are trusted; the property concerns how hcl's evaluator combines them", "marks are ignored here (C06)"},
 		Quick:       Plan{Batches: 16, PerBatch: 5000, MinNonTrivial: 10000},
